@@ -23,6 +23,7 @@ type boundedSpec struct {
 	Run      string `json:"run"`
 	Thorough bool   `json:"thorough_only"`
 	Timeout  int    `json:"timeout"`
+	Race     string `json:"race"` // "always" or "thorough": run under the race detector
 }
 
 type boundedFailure struct {
@@ -67,9 +68,18 @@ func runBounded(id, tier, repo, verif string, seed int) []boundedResult {
 		}
 		os.Setenv("VERIF_TIER", tier)
 		os.Setenv("VERIF_SEED", fmt.Sprint(seed))
+		os.Setenv("VERIF_RACE", "")
+		if sp.Race == "always" || (sp.Race == "thorough" && tier == "thorough") {
+			os.Setenv("VERIF_RACE", "1")
+		}
 		t0 := time.Now()
 		txt, _ := runOverlayTest(repo, sp.Pkg, filepath.Join(verif, "bounded", sp.File), sp.Run, to)
+		os.Setenv("VERIF_RACE", "")
 		r := boundedResult{Name: sp.Name, Wall: time.Since(t0).Seconds()}
+		if strings.Contains(txt, "WARNING: DATA RACE") {
+			i := strings.Index(txt, "WARNING: DATA RACE")
+			r.Failures = append(r.Failures, boundedFailure{"data-race", truncate(txt[i:], 1500)})
+		}
 		if m := boundedSummaryRe.FindStringSubmatch(txt); m != nil {
 			var s struct {
 				Evaluations int    `json:"evaluations"`
